@@ -9,7 +9,19 @@ INDEPENDENCE of parses (case field "again" = 1 | 2, a share of every kind): the 
 driver scribbles over everything reachable from the result (items of every value slice overwritten in place, slices
 reordered / appended to, Property.SetArg / AddArg with junk on existing and new names, Required=false among them), and the
 SAME text is parsed again into a fresh Property - in the same or in another field / holder / registry / App context.  Both
-observations must equal the model's (pure) parse of the text, and the second must equal the first."""
+observations must equal the model's (pure) parse of the text, and the second must equal the first.
+
+THE EXPORTED ARGUMENT API (case fields "ops" / "oprobes", a share of the direct and scan cases): after the parse was observed
+the driver calls Property.SetArg / AddArg (or Args().Set / Add) with names in the spelling tags use ("qualifier"), in the
+canonical one ("Qualifier"), of arguments the tag declares and of ones it does not, unknown / empty / non-ASCII names, 0-3
+values each, and observes the table again: ForEach, IsRequired, Find / Has under both spellings of every name written, and the
+library's own rendering Args().String().  Model: TagGrammar.apply_ops on the parsed table (Set replaces, Add appends, one table
+keyed by the canonical name); oracle: the same recomputed from the OBSERVED parse.
+
+PROP SHORTHAND END TO END (kinds e2e_prop_missing / e2e_prop_present): prop:"key,arg,arg,..." on a string field through a real
+app.Run with the key absent from / present in the configuration; like the other app.Run kinds the tags carry 1-5 arguments in
+every order (required=<spelling> first, in the middle, last; benign validate= / mapper= arguments; custom ones): the start
+fails exactly when the key is absent and no required=false is among the arguments."""
 import glob
 import json
 import os
@@ -19,12 +31,14 @@ import vlib
 MANIFEST = {
     "level": "proof",
     "text": "Rocq theorems over Model/TagGrammar.v, a byte-level line-by-line model of strings2.Index/SplitWithConfig and "
-            "TagArg.Parse/Set/formatArgType/Find/Has/IsRequired and the prop shorthand with every Go slice expression as a "
+            "TagArg.Parse/Set/Add/formatArgType/Find/Has/IsRequired and the prop shorthand with every Go slice expression as a "
             "checked slice: totality for ALL byte strings (no Panic result is reachable), faithfulness on structured tags "
-            "including bracketed groups and duplicate arguments, first-letter case-insensitive lookup, and "
-            "required=false as the only way to make a point optional; the model is tied to the code on every run by "
-            "evaluating it (vm_compute) against the real NewProperty on structured tags and arbitrary byte strings, against "
-            "the real tag-scan processors and against real app.Run starts",
+            "including bracketed groups and duplicate arguments, first-letter case-insensitive lookup - also for what the "
+            "exported argument API (SetArg / AddArg) writes: one table keyed by the canonical name, Set replaces, Add appends, "
+            "other names untouched -, and required=false as the only way to make a point optional; the model is tied to the "
+            "code on every run by evaluating it (vm_compute) against the real NewProperty on structured tags and arbitrary "
+            "byte strings (followed by sequences of argument API calls), against the real tag-scan processors and against "
+            "real app.Run starts (wire / value / prop shorthand with several arguments in every order)",
     "design_ref": "DESIGN.md 5 C19",
     "note": "trusted: Coq kernel + vm_compute; hand-written model of go-kid/strings2 v0.0.1 (module cache) and arg.go; "
             "strings.ToUpper of a one-byte string modelled (ASCII upper-casing, U+FFFD for a byte >= 0x80); Go harness and "
@@ -44,6 +58,14 @@ REQ_SPELLINGS = [b"false", b"false", b"false", b"False", b"FALSE", b"0", b"f", b
 NAME_POOL = [b"required", b"Required", b"qualifier", b"Qualifier", b"mapper", b"timeLayout", b"validate", b"x", b"y",
              b"name", b"k1", b"embed", b"returns", b"a.b", b"x-y", b"n m", b" required", b"required ", b"reQuired",
              b"a\xc3\xa9", b"z\xe4\xb8\xad", b"Zed", b"R"]
+# names and values the argument API is driven with
+API_NAMES = [b"qualifier", b"qualifier", b"Qualifier", b"required", b"Required", b"mapper", b"Mapper", b"validate", b"x", b"X",
+             b"zzNew", b"returns", b"timeLayout", b"TimeLayout"]
+API_VALS = [b"prod", b"dev", b"false", b"true", b"", b"v2", b"a b", b"{x,y}", b"json", b"False", b"\xe4\xb8\xad"]
+API_HOSTILE = [b"", b"", b"\xc3\xa9x", b"\xff", b"\x80q", b" qualifier", b"=", b",", b"1", b"_q"]
+# arguments the container's own processors read and that are harmless on a string field, absent or bound
+BENIGN_ARGS = [(b"validate", [b"omitempty"]), (b"validate", [b"omitempty", b"min=1"]), (b"validate", [b"omitempty", b"max=64"]),
+               (b"mapper", [b"json"]), (b"mapper", [b"yaml"]), (b"Validate", [b"omitempty", b"min=1"])]
 VALUE_POOL = [b"", b"", b"", b"comp", b"a.b.c", b"${a.b}", b"${a.b:{x,y}}", b"#{f(a, b) + g[1,2]}", b"[a,(b,c)]",
               b"hello world", b"${x:[1,2,3]}", b"{\"k\":\"v\",\"l\":[1,2]}", b"a=b", b"\xe4\xb8\xad\xe6\x96\x87", b"${a}${b}",
               b"()", b"x{}y"]
@@ -101,6 +123,8 @@ def gen_structured(rng, req_focus=False, e2e=None):
         value = b""
     elif e2e == "value":
         value = b"" if rng.random() < 0.5 else b"w" + bytes(rng.choice(b"abcxyzABC") for _ in range(rng.randint(1, 6)))
+    elif e2e == "prop":      # the shorthand's configuration key
+        value = b"pk" + bytes(rng.choice(b"abcxyz019") for _ in range(rng.randint(1, 5)))
     else:
         value = rng.choice(VALUE_POOL) if rng.random() < 0.6 else gen_balanced(rng, b",")
     nargs = rng.choice([0, 1, 1, 2, 2, 3, 4, 5])
@@ -129,11 +153,21 @@ def gen_structured(rng, req_focus=False, e2e=None):
                     vals.append(b"")
                 else:
                     vals.append(gen_balanced(rng, b", ", maxlen=8))
+        if e2e in ("value", "prop") and j > 0 and rng.random() < 0.3:
+            name, vals = rng.choice(BENIGN_ARGS)
+            vals = list(vals)
         args.append((name, vals))
         bare.append(vals == [b""] and rng.random() < 0.5)
+    if e2e and len(args) > 1 and rng.random() < 0.6:
+        # the Required argument anywhere: first, in the middle, last
+        order = list(range(len(args)))
+        rng.shuffle(order)
+        args = [args[j] for j in order]
+        bare = [bare[j] for j in order]
     # duplicates (exact or with the first letter's case flipped): later ones must override
-    if args and rng.random() < 0.3:
-        j = rng.randrange(len(args))
+    dupable = [j for j in range(len(args)) if not (e2e and args[j][0].lower() in (b"validate", b"mapper"))]
+    if dupable and rng.random() < 0.3:
+        j = rng.choice(dupable)
         nm = args[j][0] if rng.random() < 0.5 else flip_first(args[j][0])
         vals = [rng.choice(REQ_SPELLINGS + [b"v2"]) for _ in range(rng.choice([1, 2]))]
         pos = rng.randint(j + 1, len(args))
@@ -214,14 +248,67 @@ def gen_probes(rng, tag, struct):
     return probes
 
 
-KIND_NO = {"parse": 0, "scan": 1, "scan_prop": 2, "e2e_wire_missing": 3, "e2e_wire_present": 4, "e2e_value": 5}
+def tag_names(tag, struct):
+    if struct:
+        return [a[0] for a in struct["args"]]
+    return [seg.split(b"=")[0] for seg in tag.split(b",")[1:]]
 
 
-def mk_case(kind, tag, struct=None, probes=None, stream="", again=0):
-    c = {"kind": kind, "tag": tag.hex(), "stream": stream, "probes": [
-        {"name": p["name"].hex(), "wants": [w.hex() for w in p["wants"]]} for p in (probes or [])]}
+def gen_ops(rng, tag, struct):
+    """1-4 calls of the exported argument API on the parsed Property, and the lookups to make afterwards"""
+    declared = [n for n in tag_names(tag, struct) if n]
+    ops = []
+    for _ in range(rng.choice([1, 1, 2, 2, 3, 4])):
+        r = rng.random()
+        if declared and r < 0.35:
+            name = rng.choice(declared)
+            if rng.random() < 0.5:
+                name = flip_first(name)
+        elif r < 0.80:
+            name = rng.choice(API_NAMES)
+        elif r < 0.92:
+            name = gen_name(rng)
+        else:
+            name = rng.choice(API_HOSTILE)
+        vals = [rng.choice(API_VALS) for _ in range(rng.choice([0, 1, 1, 1, 2, 3]))]
+        ops.append({"k": rng.choice(["set", "add", "add"]), "via": rng.choice([0, 0, 1]), "name": name, "vals": vals})
+    return ops, ops_probes(rng, ops, declared)
+
+
+def ops_probes(rng, ops, declared=()):
+    probes, seen = [], set()
+    names = [o["name"] for o in ops] + [rng.choice([b"Required", b"required"]), rng.choice([b"Qualifier", b"qualifier"])]
+    if declared:
+        names.append(rng.choice(list(declared)))
+    for n in names:
+        for nm in (n, flip_first(n)):
+            if nm in seen:
+                continue
+            seen.add(nm)
+            wants = [rng.choice([v for o in ops for v in o["vals"]] + [b"false"])]
+            probes.append({"name": nm, "wants": wants})
+    return probes[:12]
+
+
+KIND_NO = {"parse": 0, "scan": 1, "scan_prop": 2, "e2e_wire_missing": 3, "e2e_wire_present": 4, "e2e_value": 5,
+           "e2e_prop_missing": 6, "e2e_prop_present": 7}
+E2E_FLAVOUR = {"e2e_wire_missing": "wire", "e2e_wire_present": "wire_type", "e2e_value": "value", "e2e_prop_missing": "prop",
+               "e2e_prop_present": "prop"}
+
+
+def hex_probes(probes):
+    return [{"name": p["name"].hex(), "wants": [w.hex() for w in p["wants"]]} for p in (probes or [])]
+
+
+def mk_case(kind, tag, struct=None, probes=None, stream="", again=0, ops=None, oprobes=None, cfgval=None):
+    c = {"kind": kind, "tag": tag.hex(), "stream": stream, "probes": hex_probes(probes)}
     if again:
         c["again"] = again
+    if ops:
+        c["ops"] = [{"k": o["k"], "via": o["via"], "name": o["name"].hex(), "vals": [v.hex() for v in o["vals"]]} for o in ops]
+        c["oprobes"] = hex_probes(oprobes)
+    if cfgval is not None:
+        c["cfgval"] = cfgval.hex()
     if struct:
         c["intent"] = {"value": struct["value"].hex(), "args": [[n.hex(), [v.hex() for v in vs]] for n, vs in struct["args"]]}
     return c
@@ -243,16 +330,32 @@ def gen_cases(ctx, n_direct, n_scan, n_e2e):
             kind = "parse"
         else:
             kind = rng.choice(["scan", "scan_prop", "scan_prop"])
-        c = mk_case(kind, tag, struct, gen_probes(rng, tag, struct), stream, gen_again(rng, 0.2))
+        again = gen_again(rng, 0.2)
+        ops, oprobes = gen_ops(rng, tag, struct) if (not again and rng.random() < 0.3) else (None, None)
+        c = mk_case(kind, tag, struct, gen_probes(rng, tag, struct), stream, again, ops, oprobes)
         if kind == "scan":
             c["key"] = rng.choice(["value", "wire"])
         cases.append(c)
     for i in range(n_e2e):
-        kind = rng.choice(["e2e_wire_missing", "e2e_wire_missing", "e2e_wire_present", "e2e_value", "e2e_value"])
-        struct = gen_structured(rng, True, e2e={"e2e_wire_missing": "wire", "e2e_wire_present": "wire_type",
-                                                "e2e_value": "value"}[kind])
-        cases.append(mk_case(kind, struct["tag"], struct, [], "e2e", gen_again(rng, 0.4)))
+        kind = rng.choice(["e2e_wire_missing", "e2e_wire_missing", "e2e_wire_present", "e2e_value", "e2e_value",
+                           "e2e_prop_missing", "e2e_prop_missing", "e2e_prop_present"])
+        struct = gen_structured(rng, True, e2e=E2E_FLAVOUR[kind])
+        cases.append(mk_case(kind, struct["tag"], struct, [], "e2e", gen_again(rng, 0.4), cfgval=gen_cfgval(rng, kind)))
     return cases
+
+
+def gen_cfgval(rng, kind):
+    """kind e2e_prop_present: the plain string configured under the shorthand's key"""
+    if kind != "e2e_prop_present":
+        return None
+    return b"cv" + bytes(rng.choice(b"abcxyzABC") for _ in range(rng.randint(1, 6)))
+
+
+def config_of(c):
+    """the YAML document of an e2e_prop_present case: the intended key bound to the configured string"""
+    if c["kind"] != "e2e_prop_present":
+        return ""
+    return "%s: %s\n" % (bytes.fromhex(c["intent"]["value"]).decode(), bytes.fromhex(c["cfgval"]).decode())
 
 
 def gen_again(rng, share):
@@ -262,7 +365,8 @@ def gen_again(rng, share):
 
 def to_driver(c, i):
     k = c["kind"]
-    d = {"id": i, "tag": c["tag"], "probes": c["probes"], "again": c.get("again", 0)}
+    d = {"id": i, "tag": c["tag"], "probes": c["probes"], "again": c.get("again", 0), "ops": c.get("ops", []),
+         "oprobes": c.get("oprobes", [])}
     if k == "parse":
         d["kind"] = "parse"
     elif k in ("scan", "scan_prop"):
@@ -270,8 +374,9 @@ def to_driver(c, i):
         d["key"] = "prop" if k == "scan_prop" else c.get("key", "value")
     else:
         d["kind"] = "e2e"
-        d["key"] = "value" if k == "e2e_value" else "wire"
+        d["key"] = {"e2e_value": "value", "e2e_prop_missing": "prop", "e2e_prop_present": "prop"}.get(k, "wire")
         d["provider"] = k == "e2e_wire_present"
+        d["config"] = config_of(c)
     return d
 
 
@@ -296,17 +401,26 @@ def s_kv(kv):
     return s_bytes(kv[0]) + s_list(kv[1], s_bytes)
 
 
+def s_probes(probes, outs):
+    pr = list(zip(probes, outs))
+    out = bytearray(s_num(len(pr)))
+    for p, po in pr:
+        out += s_bytes(p["name"]) + s_list(p["wants"], s_bytes) + s_num(int(po["fpanic"])) + s_num(int(po["found"]))
+        out += s_list(po["vals"], s_bytes) + s_num(int(po["hpanic"])) + s_num(int(po["has"])) + s_num(int(po["hasw"]))
+    return bytes(out)
+
+
 def s_parse_obs(c, o):
     """what one parse reported (Check_C19.p_pobs without the leading nprops)"""
     out = bytearray()
     out += s_bytes(o["tagval"]) + s_num(1 if o["tagstr"] == o["tagval"] else 0)
     out += s_list([(a["k"], a["v"]) for a in o["args"]], s_kv) + s_num(1 if o["required"] else 0)
-    pr = list(zip(c["probes"], o["probes"]))
-    out += s_num(len(pr))
-    for p, po in pr:
-        out += s_bytes(p["name"]) + s_list(p["wants"], s_bytes) + s_num(int(po["fpanic"])) + s_num(int(po["found"]))
-        out += s_list(po["vals"], s_bytes) + s_num(int(po["hpanic"])) + s_num(int(po["has"])) + s_num(int(po["hasw"]))
+    out += s_probes(c["probes"], o["probes"])
     return bytes(out)
+
+
+def s_op(op):
+    return s_num(0 if op["k"] == "set" else 1) + s_bytes(op["name"]) + s_list(op["vals"], s_bytes)
 
 
 def serialise(c, o):
@@ -330,6 +444,17 @@ def serialise(c, o):
         out += s_num(1) + s_num(f["nprops"]) + s_parse_obs(c, f)
     else:
         out += s_num(0)
+    # the exported argument API: the calls, and the table the driver saw afterwards (Check_C19.p_op / p_after)
+    out += s_list(c.get("ops", []), s_op)
+    a = o.get("after")
+    if a:
+        if len(a["probes"]) != len(c.get("oprobes", [])):
+            raise RuntimeError("driver returned %d probes for %d (after the API calls)" % (len(a["probes"]), len(c.get("oprobes", []))))
+        out += s_num(1) + s_list([(x["k"], x["v"]) for x in a["args"]], s_kv) + s_num(1 if a["required"] else 0)
+        out += s_probes(c["oprobes"], a["probes"]) + s_bytes(a["str"])
+    else:
+        out += s_num(0)
+    out += s_bytes(c.get("cfgval", ""))
     return bytes(out)
 
 
@@ -362,6 +487,8 @@ def evaluate(ctx, binp, cases, tag, shard=None):
         if o.get("first"):
             obs["first_parse_before_scribbling"] = {k: o["first"][k] for k in ("nprops", "tagval", "tagstr", "args", "required",
                                                                               "probes")}
+        if o.get("after"):
+            obs["after_the_api_calls"] = {k: o["after"][k] for k in ("args", "required", "probes", "str")}
         by_id[i] = {"case": c, "tag_text": bytes.fromhex(c["tag"]).decode("latin1"), "observed": obs}
         terms.append(pack(serialise(c, o)))
     # canary: a deliberately falsified observation (value part of ",x=1" reported as "!") must come back as a
@@ -379,12 +506,25 @@ def evaluate(ctx, binp, cases, tag, shard=None):
                      first=dict(good, args=[{"k": b"X".hex(), "v": [b"2".hex()]}]))
     cid2 = len(terms)
     terms.append(pack(serialise(canary2_c, canary2_o)))
+    # third canary: AddArg("qualifier", "prod") on a tag without arguments, the table afterwards reported with the RAW key
+    # "qualifier" (so that lookups of Qualifier miss): must be reported both ways
+    c3_ops = [{"k": "add", "via": 0, "name": b"qualifier", "vals": [b"prod"]}]
+    canary3_c = mk_case("parse", b"nm", {"value": b"nm", "args": []}, [], "canary", 0, c3_ops,
+                        [{"name": b"Qualifier", "wants": [b"prod"]}])
+    miss = {"fpanic": False, "found": False, "vals": [], "hpanic": False, "has": False, "hasw": False}
+    canary3_o = {"panic": "", "nprops": 1, "tagval": b"nm".hex(), "tagstr": b"nm".hex(), "args": [], "required": True, "probes": [],
+                 "failed": False, "fieldnil": False, "fieldstr": "",
+                 "after": {"args": [{"k": b"qualifier".hex(), "v": [b"prod".hex()]}], "required": True, "probes": [miss],
+                           "str": b".qualifier(prod)".hex()}}
+    cid3 = len(terms)
+    terms.append(pack(serialise(canary3_c, canary3_o)))
     M, V, NT = coq_eval_local(ctx, "cases_c19_" + tag, terms, shard)
-    for x in (cid, cid2):
+    canaries = (cid, cid2, cid3)
+    for x in canaries:
         if x not in M or x not in V:
             raise vlib.CoqEvalError("cases_c19_" + tag, "canary case %d was not reported (M=%s V=%s)" % (x - cid, x in M, x in V))
-    return (by_id, [i for i in M if i not in (cid, cid2)], [i for i in V if i not in (cid, cid2)],
-            [i for i in NT if i not in (cid, cid2)])
+    return (by_id, [i for i in M if i not in canaries], [i for i in V if i not in canaries],
+            [i for i in NT if i not in canaries])
 
 
 def coq_eval_local(ctx, basename, blobs, shard=None):
@@ -500,6 +640,44 @@ def corpus_cases():
             s = {"value": val, "args": [(name, vals)], "bare": [False]}
             s["tag"] = render(val, s["args"])
             cs.append(mk_case(kind, s["tag"], s, [], "corpus", again))
+    # the exported argument API on a parsed Property: Set / Add under the tag spelling and the canonical one, on tags that do
+    # and do not declare the argument, observed under both spellings
+    import random
+    r0 = random.Random(19)
+    api_tags = [(b"", []), (b"nm", []), (b"nm", [(b"required", [b"false"])]), (b"", [(b"qualifier", [b"dev"])]),
+                (b"nm", [(b"Qualifier", [b"a", b"b"]), (b"x", [b"1"])]), (b"${a.b:{x,y}}", [(b"mapper", [b"json"])])]
+    for val, args in api_tags:
+        st = {"value": val, "args": args, "bare": [False] * len(args)}
+        st["tag"] = render(val, args)
+        for name in (b"qualifier", b"Qualifier", b"required", b"x", b"mapper"):
+            for k in ("add", "set"):
+                ops = [{"k": k, "via": 0, "name": name, "vals": [b"prod"] if name != b"required" else [b"false"]}]
+                for kind, key in (("parse", None), ("scan", "wire"), ("scan_prop", None)):
+                    if kind != "parse" and (k, name) not in (("add", b"qualifier"), ("set", b"required"), ("add", b"x")):
+                        continue
+                    c = mk_case(kind, st["tag"], st, [], "corpus", 0, ops, ops_probes(r0, ops, [a[0] for a in args]))
+                    if key:
+                        c["key"] = key
+                    cs.append(c)
+        ops = [{"k": "add", "via": 1, "name": b"qualifier", "vals": [b"prod"]}, {"k": "add", "via": 0, "name": b"Qualifier", "vals": [b"dev", b"qa"]},
+               {"k": "set", "via": 1, "name": b"x", "vals": []}, {"k": "add", "via": 0, "name": b"", "vals": [b"lost"]}]
+        cs.append(mk_case("parse", st["tag"], st, [], "corpus", 0, ops, ops_probes(r0, ops)))
+    # the prop shorthand end to end with two or more arguments in every order, key absent / present
+    extra = [(b"validate", [b"omitempty", b"min=1"]), (b"mapper", [b"json"]), (b"x", [b"1", b"2"])]
+    for reqv in (b"false", b"true"):
+        orders = [[(b"required", [reqv])] + extra[:1], extra[:1] + [(b"required", [reqv])],
+                  extra[:1] + [(b"required", [reqv])] + extra[1:2], extra + [(b"required", [reqv])],
+                  [(b"required", [reqv])] + extra, extra[2:] + [(b"Required", [reqv])] + extra[:2]]
+        for args in orders:
+            for kind in ("e2e_prop_missing", "e2e_prop_present", "e2e_value"):
+                st = {"value": b"" if kind == "e2e_value" else b"pk.tmo" if args[0][0] == b"x" else b"pktmo", "args": args,
+                      "bare": [False] * len(args)}
+                st["tag"] = render(st["value"], args)
+                if kind == "e2e_prop_present" and b"." in st["value"]:
+                    continue
+                cs.append(mk_case(kind, st["tag"], st, [], "corpus", 0, cfgval=b"cvalue" if kind == "e2e_prop_present" else None))
+                if kind == "e2e_prop_missing":
+                    cs.append(mk_case("scan_prop", st["tag"], st, [], "corpus"))
     d = os.path.join(vlib.VERIF, "corpus", "C19")
     for f in sorted(glob.glob(os.path.join(d, "*.json"))):
         j = json.load(open(f))
@@ -527,6 +705,13 @@ def distribution(cases, by_id, d=None):
              "with_brackets": 0, "unbalanced_brackets": 0, "non_ascii_bytes": 0, "invalid_utf8": 0,
              "with_duplicate_names": 0, "bracketed_value_with_separator_inside": 0, "required_false_observed": 0,
              "probes": 0, "probes_first_letter_flipped_found": 0, "empty_name_segments": 0, "implementation_panics": 0,
+             "argument_api_after_the_parse": {"cases": 0, "calls": {"set": 0, "add": 0}, "via": {"Property.SetArg/AddArg": 0, "Args().Set/Add": 0},
+                                              "calls_on_a_name_the_tag_declares": 0, "calls_on_a_name_the_tag_does_not_declare": 0,
+                                              "calls_in_tag_spelling(lower-case first letter)": 0, "calls_with_empty_or_non_ascii_name": 0,
+                                              "add_of_qualifier_on_a_tag_without_one": 0, "lookups_after_the_calls": 0,
+                                              "lookups_found": 0},
+             "app_run_tags": {"with_two_or_more_arguments": 0, "required_argument_not_first": 0, "prop_shorthand": 0,
+                              "prop_shorthand_two_or_more_arguments_key_absent_optional": 0, "with_validate_or_mapper": 0},
              "parsed_again_after_scribbling": {"cases": 0, "by_kind_and_mode(1 same context, 2 other context)": {},
                                                "with_at_least_one_argument_to_overwrite": 0,
                                                "first_observations_compared": 0}}
@@ -575,6 +760,42 @@ def distribution(cases, by_id, d=None):
         d["probes_first_letter_flipped_found"] += sum(1 for p in o["probes"] if p["found"])
         if o["panic"]:
             d["implementation_panics"] += 1
+        if c.get("ops"):
+            ap = d["argument_api_after_the_parse"]
+            ap["cases"] += 1
+            declared = set()
+            for a in o["args"]:
+                declared.add(bytes.fromhex(a["k"]))
+            for op in c["ops"]:
+                nm = bytes.fromhex(op["name"])
+                ap["calls"][op["k"]] += 1
+                ap["via"]["Args().Set/Add" if op["via"] else "Property.SetArg/AddArg"] += 1
+                canon = flip_first(nm) if nm[:1].islower() else nm
+                ap["calls_on_a_name_the_tag_declares" if canon in declared else "calls_on_a_name_the_tag_does_not_declare"] += 1
+                if nm[:1].islower():
+                    ap["calls_in_tag_spelling(lower-case first letter)"] += 1
+                if not nm or nm[0] >= 0x80:
+                    ap["calls_with_empty_or_non_ascii_name"] += 1
+                if op["k"] == "add" and nm == b"qualifier" and b"Qualifier" not in declared:
+                    ap["add_of_qualifier_on_a_tag_without_one"] += 1
+            aft = o.get("after_the_api_calls")
+            if aft:
+                ap["lookups_after_the_calls"] += len(aft["probes"])
+                ap["lookups_found"] += sum(1 for p in aft["probes"] if p["found"])
+        if c["kind"].startswith("e2e") and "intent" in c:
+            ar = d["app_run_tags"]
+            names = [bytes.fromhex(n) for n, _ in c["intent"]["args"]]
+            req_at = [j for j, n in enumerate(names) if n.strip().lower() == b"required"]
+            if len(names) >= 2:
+                ar["with_two_or_more_arguments"] += 1
+            if req_at and req_at[0] > 0:
+                ar["required_argument_not_first"] += 1
+            if any(n.lower() in (b"validate", b"mapper") for n in names):
+                ar["with_validate_or_mapper"] += 1
+            if c["kind"].startswith("e2e_prop"):
+                ar["prop_shorthand"] += 1
+                if c["kind"] == "e2e_prop_missing" and len(names) >= 2 and not o["failed"]:
+                    ar["prop_shorthand_two_or_more_arguments_key_absent_optional"] += 1
         if c.get("again"):
             pa = d["parsed_again_after_scribbling"]
             pa["cases"] += 1
@@ -606,8 +827,9 @@ def shrink_candidates(c):
             s["tag"] = render(vv, aa)
             n = mk_case(c["kind"], s["tag"], s, [], c.get("stream", ""), c.get("again", 0))
             n["probes"] = c["probes"]
-            if "key" in c:
-                n["key"] = c["key"]
+            for k in ("key", "ops", "oprobes", "cfgval"):
+                if k in c:
+                    n[k] = c[k]
             out.append(n)
     else:
         t = bytes.fromhex(c["tag"])
@@ -620,7 +842,23 @@ def shrink_candidates(c):
             out.append(dict(c, probes=[]))
     if c.get("again") == 2:
         out.append(dict(c, again=1))
+    ops = c.get("ops", [])
+    if len(ops) > 1:
+        for j in range(len(ops)):
+            out.append(dict(c, ops=ops[:j] + ops[j + 1:]))
+    if ops and len(c.get("oprobes", [])) > 2:
+        out.append(dict(c, oprobes=c["oprobes"][:2]))
+        out.append(dict(c, oprobes=c["oprobes"][2:]))
     return out
+
+
+def case_key(c):
+    return hash((c["kind"], c.get("key", ""), c["tag"], c.get("again", 0), json.dumps(c.get("ops", []), sort_keys=True),
+                 c.get("cfgval", "")))
+
+
+def case_weight(c):
+    return len(c.get("ops", [])) * 100 + len(c.get("oprobes", []))
 
 
 BATCH = 60000   # cases per driver process / Coq evaluation round (bounds memory in the thorough tier)
@@ -667,9 +905,9 @@ def run(ctx):
         by_id, m, v, nt = evaluate(ctx, binp, cases, tag)
         dist = distribution(cases, by_id, dist)
         for i, c in enumerate(cases):
-            seen.add(hash((c["kind"], c.get("key", ""), c["tag"], c.get("again", 0))))
+            seen.add(case_key(c))
         for i in nt:
-            seen_nt.add(hash((cases[i]["kind"], cases[i].get("key", ""), cases[i]["tag"], cases[i].get("again", 0))))
+            seen_nt.add(case_key(cases[i]))
         for i in set(m) | set(v):
             keep[total + i] = by_id[i]
         M += [total + i for i in m]
@@ -697,8 +935,9 @@ def run(ctx):
             b2, _, V2, _ = evaluate(ctx, binp, cands, "shrink")
             if not V2:
                 return cur
-            V2.sort(key=lambda i: (len(cands[i]["tag"]), i))
-            if len(cands[V2[0]]["tag"]) >= len(cur["case"]["tag"]) and cands[V2[0]]["probes"] == cur["case"]["probes"]:
+            V2.sort(key=lambda i: (len(cands[i]["tag"]), case_weight(cands[i]), i))
+            if (len(cands[V2[0]]["tag"]) >= len(cur["case"]["tag"]) and cands[V2[0]]["probes"] == cur["case"]["probes"]
+                    and case_weight(cands[V2[0]]) >= case_weight(cur["case"])):
                 return cur
             cur = b2[V2[0]]
         return cur
@@ -721,7 +960,12 @@ def run(ctx):
                 "invalid UTF-8 / empty first bytes, uniform bytes); a share of every kind is run as a REPEATED parse (again = 1 | 2): "
                 "parse, record, scribble over everything reachable from the result (value slices in place, SetArg / AddArg), "
                 "parse the same text again in the same / another context - both observations against the model, the second "
-                "against the first; non-trivial = the tag contains a ','; distinct = distinct (kind, key, tag bytes, again)",
+                "against the first; a share of the direct / scan cases goes on to drive the EXPORTED ARGUMENT API on the parsed Property "
+                "(Property.SetArg / AddArg, Args().Set / Add: 1-4 calls, names in tag spelling and canonical spelling, declared by the "
+                "tag or not, unknown / empty / non-ASCII, 0-3 values) and observes the table again (ForEach, IsRequired, Find / Has "
+                "under both spellings, Args().String()); the app.Run kinds cover wire / value / the prop shorthand (key absent and "
+                "present) with 1-5 arguments in every order incl. benign validate= / mapper=; non-trivial = the tag contains a ',' or "
+                "the argument API was driven; distinct = distinct (kind, key, tag bytes, again, API calls, configured value)",
         "samples": samples,
         "traces_validated_against_impl": e2e_total,
         "input_distribution": dist,
@@ -734,6 +978,11 @@ def run(ctx):
                                     "separators are the one-byte literals \",\" \" \" \"=\" the container passes to strings2",
                                     "argument lookups with an empty name (API misuse: Find(\"\") panics in formatArgType) are "
                                     "compared with the model but not judged by the oracle",
+                                    "the argument API is driven through Property.SetArg / AddArg and through the map Property.Args() hands "
+                                    "out (TagArg.Set / Add); values are fresh slices per call (aliasing of caller-owned slices is not "
+                                    "part of the class)",
+                                    "app.Run cases of the prop shorthand configure plain lower-case keys and plain letter strings (what a "
+                                    "configured value becomes on its way into the field is C17's subject)",
                                     "independence of parses is exercised within one driver process (direct parses, scans on "
                                     "fresh registries, Apps started one after the other); the scribbling uses only what a caller "
                                     "can reach through the exported API: the slices handed out by Args().ForEach / Find and "
